@@ -410,13 +410,25 @@ func init() {
 			return termsToArr(e)
 		}
 		m["github.com/ethereum/go-ethereum/common.HexToAddress"] = func(ex *Exec, fr *frame, cc *ssa.CallCommon, a []Value) Value {
-			panic(unsupported{"common.HexToAddress"})
+			if s, ok := a[0].(VStr); ok && s.Atom != nil {
+				if bs, ok2 := ex.addrHex[s.Atom.S]; ok2 {
+					return termsToArr(bs)
+				}
+			}
+			panic(unsupported{"common.HexToAddress of a string that is not the Hex() of a known address"})
 		}
 		m["(github.com/ethereum/go-ethereum/common.Address).Bytes"] = func(ex *Exec, fr *frame, cc *ssa.CallCommon, a []Value) Value {
 			return termsToSlice(ex, ex.mustBytes(a[0], "Address.Bytes"))
 		}
 		m["(github.com/ethereum/go-ethereum/common.Address).Hex"] = func(ex *Exec, fr *frame, cc *ssa.CallCommon, a []Value) Value {
-			return ex.freshAtom("addrhex")
+			// the checksummed hex text is an injective function of the 20 bytes
+			bs := ex.mustBytes(a[0], "Address.Hex")
+			t := ex.injectiveAtom("addrhex", bs)
+			if ex.addrHex == nil {
+				ex.addrHex = map[string][]Term{}
+			}
+			ex.addrHex[t.S] = bs
+			return VStr{Atom: &t, N: 42}
 		}
 		m["(encoding/binary.bigEndian).PutUint64"] = func(ex *Exec, fr *frame, cc *ssa.CallCommon, a []Value) Value {
 			s := a[1].(VSlice)
